@@ -23,6 +23,9 @@ pub fn components() -> Vec<String> {
             v.push(d);
         }
     }
+    // many separate pieces on every row (more spans than any fixed look-back window)
+    let many: String = (0..40).map(|i| char::from(b'a' + (i % 26) as u8).to_string()).collect::<Vec<_>>().join(" ");
+    v.push(format!("{}\n{}\n{}", many, many, many));
     v.push("()()".into());
     v.push(" ()()".into());
     v.push("()\n()".into());
